@@ -519,6 +519,59 @@ fn dust_drill(sim: &mut Sim, ctx: &mut Ctx, st: &Integ, ui: usize, authority: Pu
     }
 }
 
+/// Whale drill: an enormous (but consistent) Solend / Kamino reserve at a rate off 1 and a
+/// deposit so large that amount x scaled supply leaves the program's 80.48 fixed point.  The
+/// conversion must then report an error (the instruction fails); whenever it does go through, it
+/// must agree with the exactly computing venue.
+fn whale_drill(sim: &mut Sim, ctx: &mut Ctx, b: &VenueBank, authority: Pubkey, ma: Pubkey, ta: Pubkey) {
+    if b.kind == VKind::Drift {
+        return;
+    }
+    let Some(mut acc) = sim.store.get(&b.acc1).cloned() else { return };
+    let (num, den) = *ctx.rng.pick(&[(5u64, 4u64), (4, 5), (3, 2), (1, 1)]);
+    let col: u64 = *ctx.rng.pick(&[1_000_000_000_000_000u64, 40_000_000_000_000_000, 2_000_000_000_000_000_000]);
+    let avail = col / den * num;
+    match b.kind {
+        VKind::Solend => {
+            acc.data[171..179].copy_from_slice(&avail.to_le_bytes());
+            acc.data[179..195].copy_from_slice(&0u128.to_le_bytes());
+            acc.data[259..267].copy_from_slice(&col.to_le_bytes());
+        }
+        _ => {
+            acc.data[8 + 216..8 + 224].copy_from_slice(&avail.to_le_bytes());
+            acc.data[8 + 224..8 + 240].copy_from_slice(&0u128.to_le_bytes());
+            acc.data[8 + 2584..8 + 2592].copy_from_slice(&col.to_le_bytes());
+        }
+    }
+    set(sim, b.acc1, acc, "oracle_venue_whale_state");
+    // the venue really holds that liquidity, the user really holds the tokens
+    if let Some(mut s) = sim.store.get(&b.supply).cloned() {
+        fixtures::set_token_amount(&mut s.data, avail);
+        set(sim, b.supply, s, "fixture_venue");
+    }
+    let amount = *ctx.rng.pick(&[600_000_000_000_000u64, 5_000_000_000_000_000, 90_000_000_000_000_000, 1_000_000_000_000_000_000]);
+    if let Some(mut t) = sim.store.get(&ta).cloned() {
+        let cur = fixtures::token_amount(&t.data);
+        fixtures::set_token_amount(&mut t.data, cur.max(amount));
+        set(sim, ta, t, "fixture_token_account");
+    }
+    refresh(sim, ctx, b);
+    sim.stats.fault("integ_whale_deposit_attempted");
+    if let Some(o) = sim.apply(Event::Tx(Tx::one("integ_user", ix::venue_deposit(b, ma, authority, ta, amount)))) {
+        if o.ok() {
+            sim.stats.fault("integ_whale_deposit_ok");
+            // and out again, in two halves
+            let rm = crate::world::risk_metas(&sim.store, &ma, None, None);
+            let half = model::account_of(&sim.store, &ma)
+                .and_then(|a| a.lending_account.balances.iter().find(|p| p.active != 0 && p.bank_pk == b.keys.bank).map(|p| crate::actors::i80(p.asset_shares).to_num::<u64>() / 2))
+                .unwrap_or(0);
+            if half > 0 {
+                sim.apply(Event::Tx(Tx::one("integ_user", ix::venue_withdraw(b, ma, authority, ta, half, None, rm))));
+            }
+        }
+    }
+}
+
 fn top_up(sim: &mut Sim, ta: &Pubkey, add: u64) {
     if let Some(mut acc) = sim.store.get(ta).cloned() {
         let cur = fixtures::token_amount(&acc.data);
@@ -576,8 +629,10 @@ pub fn step(sim: &mut Sim, ctx: &mut Ctx, st: &Integ) {
                 extreme_venue_state(sim, ctx, &b);
             } else if k == 2 {
                 extreme_feed_value(sim, ctx, &b);
-            } else if k < 5 {
+            } else if k < 4 {
                 dust_drill(sim, ctx, st, ui, authority, ma);
+            } else if k == 4 {
+                whale_drill(sim, ctx, &b, authority, ma, ta);
             } else {
                 // zero-time round trip: deposit, then take everything out again, atomically
                 let amount = ctx.rng.range(1, 50_000_000);
@@ -630,7 +685,13 @@ pub fn step(sim: &mut Sim, ctx: &mut Ctx, st: &Integ) {
             } else {
                 shares
             };
-            let amount = if all { 0 } else { crate::actors::pick_amount(ctx.rng, cap.max(1)) };
+            // one in six: the whole position by amount, WITHOUT the "all" flag - the slot stays
+            // active and empty
+            let drain = !all && ctx.rng.chance(1, 6);
+            let amount = if all { 0 } else if drain { cap.max(1) } else { crate::actors::pick_amount(ctx.rng, cap.max(1)) };
+            if drain {
+                sim.stats.fault("integ_venue_position_drained_without_closing");
+            }
             let rm = crate::world::risk_metas(&sim.store, &ma, None, if all { Some(b.keys.bank) } else { None });
             let i = ix::venue_withdraw(&b, ma, signer, ta, amount, if all { Some(true) } else { None }, rm);
             sim.stats.fault("integ_venue_withdraw_attempted");
